@@ -70,6 +70,8 @@ fn c01_oracle(m: &MLib, big: bool, via_file: bool, ctx: &mut Ctx) -> Result<(), 
     let back = if via_file {
         ctx.label("through save/open on a file");
         let path = scratch_path("c01.gds");
+        // the path already holds an older, longer file: save must replace it
+        let _ = std::fs::write(&path, vec![0xA5u8; 70_000]);
         let r = lib.save(&path);
         let out = match r {
             Err(e) => Err(e),
